@@ -16,7 +16,7 @@ def templates(rnd):
     syms = [f"S{k}" for k in range(r)]
     d = rnd.choice(DT)
     num = ops.base(d) not in ("bool",)
-    k = rnd.choice(["ew2", "ew2", "ew2mixed", "ew2mixed", "bcast", "bcast", "reduce", "reduce", "layout", "getitem", "sort", "cumsum", "where", "program", "unique", "matmul", "concat", "allany", "roll", "take_lazyidx", "mknull", "mknull", "ewconst", "ewconst"])
+    k = rnd.choice(["ew2", "ew2", "ew2mixed", "ew2mixed", "bcast", "bcast", "reduce", "reduce", "layout", "getitem", "sort", "cumsum", "where", "program", "unique", "matmul", "concat", "allany", "roll", "take_lazyidx", "mknull", "mknull", "ewconst", "ewconst", "reshape2"])
     bc = {}   # symbol -> symbol it may broadcast against (fed 1 or equal)
     if k == "ew2":
         f = rnd.choice(["add", "subtract", "multiply", "maximum" if False else "less", "equal", "logical_and" if d == "bool" else "add"])
@@ -33,6 +33,10 @@ def templates(rnd):
         impl = rnd.choice(["out = ndx.broadcast_arrays(x, y)", "out = ndx.broadcast_arrays(y, x)", "out = ndx.broadcast_to(y, nda.shape(x))",
                            "u_, v_ = ndx.broadcast_arrays(x, y); out = ndx.stack([u_, v_])"])
         return impl, {"x": syms, "y": ys}, {"x": d, "y": d}, bc
+    if k == "reshape2":
+        # a reshape that keeps the rank: (a, b) -> (-1, 2) / (2, -1) / (b, a); the run-time extents decide the result shape
+        tgt = rnd.choice(["[-1, 2]", "[2, -1]", "[-1, 1]", "[1, -1]"])
+        return f"out = ndx.reshape(x, {tgt})", {"x": ["R0", "R1"]}, {"x": d}, {"R0": ("oneof", [2, 4]), "R1": ("oneof", [1, 2, 3]), "nonempty": True}
     if k == "ewconst":
         # a UNIFORM data-holding constant with several elements (all 1 / all 0 / all True / all False) against a placeholder
         # whose run-time extent is 1 or the constant's: the result always has the broadcast shape
